@@ -8,7 +8,7 @@ PROP_MODULES = ['Jwt.Props.C09']
 PROP_FILES = ['Jwt/Props/C09.lean']
 GENERATED_FACT_THEOREMS = 0
 CHECKER_CMD = "cd lean && lake build Jwt.Props.C09 && lake env lean <generated #print axioms file>"
-LEVEL_TEXT = ('Lean theorems for every bits:Nat: the gates pass exactly per the documented floor table; every primitive call made by verification satisfies it (trace); acceptance implies it; the gate is live at/above the floor. Tied to the code by every oct length 1-160 x HS256/384/512 and every generated RSA/EC/OKP key x every public-key algorithm with oracle-signed tokens.')
+LEVEL_TEXT = ('Lean theorems for every bits:Nat: the gates pass exactly per the documented floor table; every primitive call made by verification satisfies it (trace); acceptance implies it; the gate is live at/above the floor; the same for signing (generate). Tied to the code by every oct length 1-160 x HS256/384/512 and every generated RSA/EC/OKP key x every public-key algorithm with oracle-signed tokens.')
 ASSUMPTIONS = F.COMMON_ASSUME + []
 TRUSTED_BASE = F.COMMON_TRUSTED
 replay = F.replay
@@ -24,4 +24,6 @@ def run(ctx, model_ok, deep=False):
     F.run_suites(ctx, model_ok, deep, [
         ("strength", lambda w, p, t, r: S.strength(w, p, t, r, extra), S.falsify_accept,
          "oct keys of every length 1-160 bytes x HS256/384/512 with a correct MAC; every RSA/EC/OKP key x all 11 public-key algorithms with an oracle-made signature where the family matches; must-accept at/above the floor, must-reject below", True),
+        ("generate-strength", lambda w, p, t, r: S.builder_routes_suite(w, p, t, r, dict(extra, oct16=K.Key("oct", k=b"0123456789abcdef", bits=128), oct47=K.Key("oct", k=b"x" * 47, bits=376))),
+         S.falsify_builder_routes, "generate with every key (incl. RSA-1024, oct 16/47 bytes, every curve) x explicit algorithms x routes: fails below the floor or across families, signs at/above it", True),
     ])
